@@ -47,11 +47,13 @@ def gen_model(rng, *, n_links=None, max_links=6, free_root=None, ortho=False,
               geom_elasticity=False, axis_aligned=False, identity_quat=False,
               geom_types=('sphere', 'capsule', 'box'), iterations=None,
               limit_prob=0.4, stiffness=True, root_parent_only=False,
-              max_geoms=2):
+              max_geoms=2, chain=False, min_stack=1):
   n = n_links or int(rng.integers(1, max_links + 1))
   bodies = []
   for i in range(n):
     parent = -1 if i == 0 else int(rng.integers(-1, i))
+    if chain and i > 0:
+      parent = i - 1  # one deep chain (depth = number of links)
     if root_parent_only and i > 0 and parent == -1:
       parent = int(rng.integers(0, i))
     b = {'name': 'b%d' % i, 'parent': parent, 'children': []}
@@ -63,7 +65,7 @@ def gen_model(rng, *, n_links=None, max_links=6, free_root=None, ortho=False,
         1., 0., 0., 0.]
     joints = []
     if not is_free:
-      k = 1 if single_origin else int(rng.integers(1, max_stack + 1))
+      k = 1 if single_origin else int(rng.integers(min_stack, max_stack + 1))
       if ortho:
         axes = ortho_axes(rng, k)
       elif axis_aligned:
